@@ -127,6 +127,8 @@ class Impl:
         if cfg.get("persist"):
             kwargs["persistence"] = True
             kwargs["persistence_file"] = cfg["persist"]
+            if cfg.get("persist_cwd"):       # relative file name: the process works in that directory
+                os.chdir(cfg["persist_cwd"])
         self.cb_raises = cfg.get("cb_raises", False)
         if cfg.get("mqtt"):
             cls = AsyncMQTTGateway if cfg["flavour"] == "async" else MQTTGateway
@@ -137,6 +139,22 @@ class Impl:
         self.is_async = cfg["flavour"] == "async"
         self.clock = 0
         self._fwn = 0
+        # A second, unused gateway of the same kind and version, created AFTER the one under test and kept alive:
+        # nothing it owns (handler registry, tables, defaults, queues) may be shared with the first one.
+        self.decoy_events = []
+        if cfg.get("decoy", True):
+            dk = {"protocol_version": kwargs["protocol_version"], "event_callback": lambda m: self.decoy_events.append("cb")}
+            if cfg.get("mqtt"):
+                self.decoy = cls(lambda *a: self.decoy_events.append("pub"), lambda *a: self.decoy_events.append("sub"),
+                                 in_prefix="decoy-in", out_prefix="decoy-out", **dk)
+            else:
+                self.decoy = cls(RecTransport(self.decoy_events), **dk)
+        # lines may be delivered as BYTES through a real line protocol object (serial/TCP reader path)
+        self.proto = None
+        if not cfg.get("mqtt"):
+            from mysensors.transport import BaseMySensorsProtocol
+            self.proto = BaseMySensorsProtocol(self.gw, lambda: None)
+            self.gw.tasks.transport.can_log = False
 
     def _pub(self, topic, payload, qos, retain):
         # reconstruct the command string the pump handed to transport.send
@@ -170,6 +188,12 @@ class Impl:
         with mock.patch.object(handler.calendar, "timegm", lambda *_: self.clock):
             if kind == "recv":
                 self._guard(lambda: gw.tasks.add_job(gw.logic, o[1]))
+            elif kind == "recvb":         # one line as raw bytes (no 0x0A inside) through the reader's protocol object
+                data = bytes(o[1]) + b"\n"
+                if self.proto is not None:
+                    self._guard(lambda: self.proto.data_received(data))
+                else:                      # MQTT has no byte path: the text the decoder would have produced
+                    self._guard(lambda: gw.tasks.add_job(gw.logic, bytes(o[1]).decode("utf-8", "replace")))
             elif kind == "pump":
                 if not self.is_async and gw.tasks.queue:
                     def run():
@@ -331,6 +355,9 @@ class Impl:
                 toks += ["CB"] + [str(x) for x in m[:5]] + [enc_str(str(m[5]))] + ev[2]
             else:
                 toks += ["R", ev[1]]
+        if self.decoy_events:      # the unused second gateway did something: state shared between gateway objects
+            toks += ["R", "DecoyGatewayActive:" + ",".join(sorted(set(map(str, (e if isinstance(e, str) else e[0] for e in self.decoy_events)))))]
+            del self.decoy_events[:]
         toks += ["#"] + render_state(self.gw)
         return " ".join(toks)
 
@@ -353,6 +380,8 @@ def op_line(o):
     kind = o[0]
     if kind == "recv":
         return "recv " + enc_str(o[1])
+    if kind == "recvb":       # the model receives the line as LineReader decodes it: UTF-8 with errors="replace"
+        return "recv " + enc_str(bytes(o[1]).decode("utf-8", "replace"))
     if kind == "pump":
         return "pump"
     if kind == "metric":
@@ -385,6 +414,8 @@ def oracle_strings(ops):
     for o in ops:
         if o[0] in ("save_during", "save_fail_during", "restart_during"):
             o = tuple(o[1])
+        if o[0] == "recvb":
+            o = ("recv", bytes(o[1]).decode("utf-8", "replace"))
         if o[0] == "recv":
             try:
                 out.append(Message(o[1]).payload)
